@@ -18,6 +18,12 @@ pub fn cache_name_of(content : &[u8]) -> String
     enc62_ref(&BigUint::from_bytes_le(&sha256_ref(content)))
 }
 
+/// the 43-character text form of a ticket given as raw bytes
+pub fn text_of_ticket(ticket : &[u8]) -> String
+{
+    enc62_ref(&BigUint::from_bytes_le(ticket))
+}
+
 /// short text form of a ticket given as raw bytes (diagnostics)
 pub fn cache_name_of_ticket(ticket : &[u8]) -> String
 {
@@ -790,6 +796,62 @@ pub fn shortcut(ctx : &Ctx, out : &mut Out)
         let (ops, obs, _, ok_builds, results) = run_history(out, &mut r, &params, "c18");
         emit_case(out, coarse, params.t0, &ops, &obs, ok_builds > 0);
         paired(out, "c18", coarse, params.t0, &ops, Some(results));
+    }
+}
+
+
+/// Histories aimed at rules with several targets whose targets end up in DIFFERENT states in one build: each
+/// target of one rule depends on its own subset of the leaves, single leaves are edited and put back, single
+/// targets deleted or tampered with, so that one build finds some targets up to date, some recoverable from the
+/// cache, some absent — in every order of the (sorted) target list.
+pub fn mixed_ops(r : &mut Rng) -> Vec<Op>
+{
+    let mk = |ts : Vec<&str>, ss : Vec<&str>, script : Vec<String>| RuleSpec{targets : ts.iter().map(|x| x.to_string()).collect(), sources : ss.iter().map(|x| x.to_string()).collect(), script : script, raw_command : None};
+    let leaves = ["a", "b", "c"];
+    let n_targets = r.range(2, 3);
+    let names = ["t1", "t2", "t3"];
+    let mut script = vec![];
+    for k in 0..n_targets
+    {
+        // target k reads a non-empty subset of the leaves, and carries its own tag so that contents differ
+        let mut pieces = vec![format!("={}", names[k])];
+        let mut any = false;
+        for l in leaves.iter() { if r.chance(1, 2) { pieces.push(format!("@{}", l)); any = true; } }
+        if !any { pieces.push(format!("@{}", leaves[k % 3])); }
+        script.push(format!("gen {} {}", names[k], pieces.join(" ")));
+    }
+    let mut rules = vec![mk(names[..n_targets].to_vec(), leaves.to_vec(), script)];
+    if r.chance(1, 2) { rules.push(mk(vec!["top"], vec!["t1", "t2"], vec!["gen top @t1 @t2".to_string()])); }
+    let text = Scenario{rules : rules, split_tokens : false}.render().into_bytes();
+    let vals = ["1", "2"];
+    let mut ops = vec![Op::Write(RULES_PATH.to_string(), text)];
+    for l in leaves.iter() { ops.push(Op::Write(l.to_string(), vals[0].as_bytes().to_vec())); }
+    ops.push(Op::Build(None));
+    for _ in 0..r.range(3, 8)
+    {
+        match r.below(6)
+        {
+            0 | 1 | 2 => { let l = *r.pick(&leaves); ops.push(Op::Write(l.to_string(), r.pick(&vals).as_bytes().to_vec())); },
+            3 => { ops.push(Op::Remove(r.pick(&names[..n_targets]).to_string())); },
+            4 => { ops.push(Op::Write(r.pick(&names[..n_targets]).to_string(), b"tampered".to_vec())); },
+            _ => { ops.push(Op::Clean(if r.chance(1, 2) { None } else { Some(r.pick(&names[..n_targets]).to_string()) })); },
+        }
+        if r.chance(2, 3) { ops.push(Op::Build(None)); }
+    }
+    ops.push(Op::Build(None));
+    ops
+}
+
+pub fn mixed(ctx : &Ctx, out : &mut Out)
+{
+    let mut rng = Rng::new(ctx.seed).fork(2020);
+    let n = if ctx.thorough { 3000 } else { 200 };
+    for i in 0..n
+    {
+        let mut r = rng.fork(i as u64);
+        let ops = mixed_ops(&mut r);
+        let (obs, _) = run_fixed(out, "mixed", false, 1_000_000, &ops, true, &Policy::Serial, true);
+        emit_case(out, false, 1_000_000, &ops, &obs, true);
     }
 }
 
